@@ -13,6 +13,7 @@ func init() {
 			"PV-FIRST: colour chosen on first sighting only; ERR-PROP: other result kinds are errors; MO: no map order reaches the writer",
 			"the engine keeps every entry of a stream (groupEntries) and frames of any size are read whole (decoder rules): what the renderer prints is every returned record",
 			"PV-WHOLE: every successful evaluation returns a typed response (an empty result prints nothing, it does not fail); the merge yields only records the containers produced",
+			"PV-CONST renderOptions fields are written by flag parsing only",
 		},
 		NotDecided: []string{"terminal behaviour", "isatty / NO_COLOR detection"},
 		Rules: func(r *Run) {
@@ -22,6 +23,7 @@ func init() {
 			ruleDaemonLog(r)    // a long line is a record like any other: frames are read whole, whatever their size
 			ruleMergeIter(r)    // the merged stream holds the records the containers produced and nothing else
 			ruleResultKindSet(r)
+			ruleRenderOptionsOnlyFlags(r)
 		},
 	})
 }
